@@ -827,6 +827,63 @@ def dead_loop_stage(variant: str):
     return None, details
 
 
+def twin_functions_stage(kind: str):
+    """Two decorated functions that use the same key template under different prefixes (`key="tw:{x}"`, prefix v1 / v2: two
+    versions of one cached entity side by side): their cache keys differ, so by the property neither call may be served by the
+    other's execution.  f1(7) is started and held inside its body; f2(7) and a second f1(7) are called meanwhile; then the
+    body is released.  Expected: f2's body runs on its own while f1's is in flight, the second f1(7) joins the first, every
+    caller receives the result of its own function, and what is stored under f2's key is f2's result.  Real code only (the
+    Lean model has one function per key family; round 7, C07-19: a registry keyed by the template alone).
+    Returns (problem text or None, details)."""
+    from cashews import Cache
+
+    async def go():
+        cache = Cache()
+        cache.setup("mem://")
+        gate = asyncio.Event()
+        started = {1: asyncio.Event(), 2: asyncio.Event()}
+        runs = {1: 0, 2: 0}
+        extra = {"early": {"early_ttl": 30}, "soft": {"soft_ttl": 30}}.get(kind, {})
+        deco = getattr(cache, kind)
+
+        @deco(ttl=60, key="tw:{x}", prefix="v1", **extra)
+        async def f1(x):
+            runs[1] += 1
+            started[1].set()
+            await gate.wait()
+            return 100 + x
+
+        @deco(ttl=60, key="tw:{x}", prefix="v2", **extra)
+        async def f2(x):
+            runs[2] += 1
+            started[2].set()
+            await gate.wait()
+            return 200 + x
+
+        t1 = asyncio.ensure_future(f1(7))
+        await asyncio.wait_for(started[1].wait(), 64)
+        t2 = asyncio.ensure_future(f2(7))
+        t1b = asyncio.ensure_future(f1(7))
+        for _ in range(40):
+            await asyncio.sleep(0)
+        own_body = started[2].is_set()
+        gate.set()
+        res = await asyncio.wait_for(asyncio.gather(t1, t2, t1b, return_exceptions=True), 64)
+        again = await f2(7)
+        await cache.close()
+        return {"results_f1_f2_f1": [r if isinstance(r, int) else f"{type(r).__name__}: {str(r)[:80]}" for r in res],
+                "bodies_run": [runs[1], runs[2]], "f2_body_started_while_f1_in_flight": own_body, "f2_again": again}
+
+    obs = sfimpl._vrun(go)
+    details = {"stage": "twin_functions", "kind": kind, **obs}
+    if obs["results_f1_f2_f1"] != [107, 207, 107] or obs["bodies_run"][:1] != [1] or obs["bodies_run"][1] < 1 or obs["f2_again"] != 207 \
+            or not obs["f2_body_started_while_f1_in_flight"]:
+        return (f"f1(7), f2(7), f1(7) overlapping received {obs['results_f1_f2_f1']} (expected [107, 207, 107]), bodies run "
+                f"[f1, f2] = {obs['bodies_run']}, f2's body started while f1's was in flight: {obs['f2_body_started_while_f1_in_flight']}, "
+                f"a later f2(7) answered {obs['f2_again']}: a call was served by the execution of another function's key"), details
+    return None, details
+
+
 # ------------------------------------------------------------------------------------------------------------
 # case sources
 
@@ -1193,6 +1250,18 @@ def run(chk: Check) -> int:
                           {**details, "replay_cmd": "./check C07 --replay <this file>"}, signature=D70)
             dead_reported += 1
 
+    # 0b. two functions sharing a key template under different prefixes: different keys, no shared execution
+    twins = {}
+    for kind in ("cache", "early", "soft"):
+        problem, details = twin_functions_stage(kind)
+        twins[kind] = "ok" if problem is None else problem
+        evaluations += 1
+        if problem is not None and "twin" not in dead_loop:
+            dead_loop["twin"] = "reported"
+            chk.violation(f"single-flight violated (@{kind}, two functions with one key template and different prefixes): {problem}",
+                          {**details, "replay_cmd": "./check C07 --replay <this file>"}, signature="C07:flight-registry-keyed-by-template")
+    dead_loop.pop("twin", None)
+
     # 1. corpus
     ncorpus = 0
     for origin, case in corpus_cases():
@@ -1283,6 +1352,7 @@ def run(chk: Check) -> int:
         },
         "corpus_cases": ncorpus,
         "dead_loop_stage": dead_loop,
+        "twin_functions_stage": twins,
         "variant_histogram": variants_hist,
         "step_histogram": step_hist,
         "interesting_states_cases": interesting,
@@ -1317,6 +1387,15 @@ def replay(chk: Check, path: str) -> int:
     c = json.loads(Path(path).read_text())
     if c.get("stage") == "dead_loop":
         problem, details = dead_loop_stage(c["variant"])
+        print(json.dumps(details, indent=1))
+        if problem is None:
+            print("replay: no disagreement")
+            return 0
+        print("property:", problem)
+        print(f"VIOLATION property={PROP} replay={path}")
+        return 1
+    if c.get("stage") == "twin_functions":
+        problem, details = twin_functions_stage(c["kind"])
         print(json.dumps(details, indent=1))
         if problem is None:
             print("replay: no disagreement")
